@@ -5,6 +5,6 @@ cd /repo && git diff --quiet || { echo "repo dirty"; exit 9; }
 sed -i "$e" "$f"
 if git diff --quiet; then echo "MUTATION DID NOT APPLY"; exit 8; fi
 git diff | grep '^[-+]' | grep -v '^+++\|^---'
-cd /verif
+cd /verif; export VERIF_EVIDENCE_DIR=/tmp/seeded_evidence
 for c in "$@"; do ./vcheck $c --tier quick 2>&1 | grep -E "^VIOLATION|^\[C|HARNESS|KNOWN" | head -8; done
 git -C /repo checkout -- . 
